@@ -29,8 +29,8 @@ INDICES = {'0': 0, '1': 1, '2': 2, '3': 3, '4': 4, '5': 5, '-1': -1, '-2': -2, '
 VALUES = {'0': 0, '1': 1, 'None': None}
 SLICES = [(a, b) for a in (None, '0', '1', '-1', '1.5', '-2') for b in (None, '0', '2', '-1', '-1.5', '5')]
 KEYS = {'"a"': 'a', '"1"': '1', '1': ('num', '1'), '1.0': ('num', '1.0'), 'True': True, 'None': None,
-        'hk': 1, 'hs': 'a', '"True"': 'True', '"None"': 'None', '"1.0"': '1.0'}
-STRKEYS = {'"a"': 'a', '"1"': '1', '"1.0"': '1.0', '"True"': 'True', '"None"': 'None', 'hs': 'a', '"zz"': 'zz'}
+        'hk': 1, 'hs': 'a', '"True"': 'True', '"None"': 'None', '"1.0"': '1.0', '"\u0439"': '\u0439', '"\u0438\u0306"': '\u0438\u0306'}
+STRKEYS = {'"\u0439"': '\u0439', '"\u0438\u0306"': '\u0438\u0306', '"a"': 'a', '"1"': '1', '"1.0"': '1.0', '"True"': 'True', '"None"': 'None', 'hs': 'a', '"zz"': 'zz'}
 
 
 def list_ops():
@@ -61,7 +61,17 @@ def list_ops():
     return ops
 
 
-def dict_ops():
+UNICODE_KEYS = ['"\u0439"', '"\u0438\u0306"', '"a"']      # composed / decomposed spelling of one letter: two different keys
+
+
+def dict_ops(kind='dict'):
+    ops = [('keys',), ('values',), ('items',), ('len',)]
+    KEYS_ = [k for k in KEYS if (k in UNICODE_KEYS) == (kind == 'dictu') or (kind == 'dictu' and k == '"a"')]
+    STRKEYS_ = [k for k in STRKEYS if (k in UNICODE_KEYS) == (kind == 'dictu') or (kind == 'dictu' and k == '"a"')]
+    return _dict_ops(KEYS_, STRKEYS_)
+
+
+def _dict_ops(KEYS, STRKEYS):
     ops = [('keys',), ('values',), ('items',), ('len',)]
     for k in KEYS:
         ops.append(('read', k))
@@ -323,7 +333,7 @@ def _argclass(kind, op):
         if isinstance(v, Fraction):
             return 'neg-frac' if v < 0 else 'frac'
         return 'neg' if v < 0 else 'nonneg'
-    if kind == 'dict' and a in KEYS:
+    if kind in ('dict', 'dictu') and a in KEYS:
         v = KEYS[a]
         return type(v).__name__ if not isinstance(v, tuple) else 'num'
     return ''
@@ -418,7 +428,7 @@ def work(task):
         return res
     kind, states, b = task
     res = runner.Result()
-    ops = list_ops() if kind == 'list' else dict_ops()
+    ops = list_ops() if kind == 'list' else dict_ops(kind)
     for st in states:
         for op in ops:
             nxt = step(res, kind, st, op, b)
@@ -433,7 +443,7 @@ def main(tier, seed, t0):
     b = BOUNDS[tier]
     snapshot.api()
     total = runner.Result()
-    seen = {('list', ()), ('dict', ())}
+    seen = {('list', ()), ('dict', ()), ('dictu', ())}
     frontier = sorted(seen, key=repr)
     depth = 0
     fix = False
@@ -441,7 +451,7 @@ def main(tier, seed, t0):
     while frontier and depth < b['DEPTH']:
         depth += 1
         tasks = []
-        for kind in ('list', 'dict'):
+        for kind in ('list', 'dict', 'dictu'):
             sts = [s for k, s in frontier if k == kind]
             n = max(1, len(sts) // 32 + 1)
             tasks += [(kind, sts[i:i + n], b) for i in range(0, len(sts), n)]
